@@ -1,6 +1,7 @@
 import Skc.Lemmas.PeltSpec
 import Skc.Lemmas.Tables
 import Skc.Lemmas.Congr
+import Skc.Lemmas.GaussCovIneq
 
 /-! # C02 — PELT returns an exact minimiser of the penalised segmentation cost
 
@@ -115,6 +116,40 @@ theorem pelt_l2_exact (x : ℕ → ℝ) (pen : ℝ) (m n : ℕ) (hm : 1 ≤ m) (
   · rw [← hc _ h1]; exact h2
   · intro cps hv
     rw [← hc cps hv]; exact h3 cps hv
+
+/-! ### composed down to the data: PELT with the univariate Gaussian cost -/
+
+/-- **C02, univariate Gaussian cost, from the rows**: with the cost table the code builds from prefix sums
+    (`gaussTable`: `n log(2π max(var, 1e-16)) + n`), and every interval of at least `m` rows inside `[0, n]`
+    having an empirical variance at or above the floor, the reported segmentation is admissible, its
+    penalised cost is the final score, and no admissible segmentation costs less.  (`SplitIneq` is
+    discharged by `gaussTable_split`; at the floor the split inequality can fail, which is why the
+    property restricts the claim for this cost.) -/
+theorem pelt_gauss_exact (x : ℕ → ℝ) (pen : ℝ) (m n : ℕ) (hm : 1 ≤ m) (hn : 2 * m ≤ n)
+    (habove : ∀ s e, s + m ≤ e → e ≤ n → varFloorConst ≤ segVar x s e) :
+    let r := runPeltCode (gaussTable x) pen m n
+    ValidFrom m 0 r.2 n ∧ segCost (gaussTable x) pen 0 r.2 n = r.1 n ∧
+      ∀ cps, ValidFrom m 0 cps n → r.1 n ≤ segCost (gaussTable x) pen 0 cps n :=
+  peltCode_optimal (gaussTable x) pen m n hm hn (gaussTable_split x m n hm habove)
+
+/-! ### composed down to the data: PELT with the multivariate Gaussian cost -/
+
+/-- **C02, multivariate Gaussian cost, from the rows**: when every interval of at least `m` rows inside
+    `[0, n]` has a positive definite sample covariance (otherwise the code raises its documented error),
+    PELT run on the cost defined from the rows (`gcovCost`: `np.cov` / `slogdet` in the code, tied
+    numerically by C01) returns an admissible segmentation whose penalised cost is the final score, and no
+    admissible segmentation has a smaller one.  `SplitIneq` is discharged by `gcovCost_split_le`
+    (Lemmas/GaussCovIneq.lean). -/
+theorem pelt_gcov_exact {p : ℕ} (x : ℕ → Fin p → ℝ) (pen : ℝ) (m n : ℕ) (hm : 1 ≤ m) (hn : 2 * m ≤ n)
+    (hpd : ∀ s e, s + m ≤ e → e ≤ n → (covMat x s e).PosDef) :
+    let r := runPeltCode (gcovCost x) pen m n
+    ValidFrom m 0 r.2 n ∧ segCost (gcovCost x) pen 0 r.2 n = r.1 n ∧
+      ∀ cps, ValidFrom m 0 cps n → r.1 n ≤ segCost (gcovCost x) pen 0 cps n := by
+  apply peltCode_optimal (gcovCost x) pen m n hm hn
+  intro s t e hadm hte hen
+  have hst : s + m ≤ t := by rcases hadm with ⟨h0, h⟩ | ⟨_, h⟩ <;> omega
+  exact gcovCost_split_le x s t e (by omega) (by omega) (hpd s e (by omega) hen) (hpd s t hst (by omega))
+    (hpd t e hte hen)
 
 /-! ### Negative result: the pinned upstream pruning (`delay = 0`) is not exact for `m = 3` -/
 
